@@ -22,6 +22,7 @@ import (
 	"sync"
 	"time"
 
+	"github.com/olareg/olareg"
 	"github.com/olareg/olareg/internal/verif/vfs"
 	"github.com/olareg/olareg/internal/verif/vh"
 )
@@ -132,34 +133,42 @@ var crashOnly = os.Getenv("VERIF_FOCUS") == "crash"
 func main() {
 	r := vh.Start()
 	if crashOnly {
-		n := r.N(80, 2500)
-		vh.Parallel(n, 12, func(i int) { one(r, 2*i) })
+		n := r.N(81, 2499)
+		vh.Parallel(n, 12, func(i int) { one(r, 3*i) })
 		r.Require("layouts", int64(n))
 		r.Require("crash_images_checked", int64(n))
 		r.Finish("conversions: generated legacy layouts (see C17) opened by a writable directory store under the filesystem shim; the tree is copied before every mutating call and in the middle of every write of the conversion, each copy is opened by a new server and must serve every referrer the fallback tags name, every other tag, manifest and blob; a case is one crash image", "crash_images_checked", "layout_classes")
 		return
 	}
-	n := r.N(160, 5000)
+	n := r.N(180, 5001)
 	vh.Parallel(n, 12, func(i int) { one(r, i) })
 	r.Require("layouts", int64(n))
 	r.Require("subjects_compared", int64(n*3))
-	r.Require("crash_images_checked", int64(n/2))
+	r.Require("crash_images_checked", int64(n/3))
 	r.RequireDistinct("layout_classes", 7)
-	r.Finish("generated legacy layouts (0-3 subjects x 0-4 referrers; fallback index accurate / stale size / stale artifactType / stale annotations / entry for a missing manifest / mixed subject / non-referrer entry; dangling fallback tag; sha256 and sha512 subjects; look-alike tags; shuffled index.json) opened by a writable directory store and by memory-over-directory; referrers, other tags, content and marker checked after the first open, after a second open and on every crash image of the conversion; the first request runs under the stable-stall watch; a case is one layout x store, distinct = fallback index classes", "layouts", "layout_classes")
+	r.Finish("generated legacy layouts (0-3 subjects x 0-4 referrers; fallback index accurate / stale size / stale artifactType / stale annotations / entry for a missing manifest / mixed subject / non-referrer entry; dangling fallback tag; sha256 and sha512 subjects; look-alike tags; shuffled index.json) opened by a writable directory store, by memory-over-directory and by a read-only memory-over-directory (which converts in memory); classes also: one referrer listed twice, index referrers with and without a wrong artifactType, an ordinary multi-platform index under a digest-shaped tag; referrers, other tags, content and marker checked after the first open, after a second open and on every crash image of the conversion; the first request runs under the stable-stall watch; a case is one layout x store, distinct = fallback index classes", "layouts", "layout_classes")
 }
 
 func one(r *vh.Run, i int) {
-	rng := r.Rand(i / 2) // the same layout for both stores
-	kind := []vh.StoreKind{vh.Dir, vh.MemDir}[i%2]
+	rng := r.Rand(i / 3) // the same layout for the three stores
+	kind := []vh.StoreKind{vh.Dir, vh.MemDir, vh.MemDir}[i%3]
+	ro := i%3 == 2 // the memory store over the directory, read-only: it converts in memory all the same
 	base := r.TempDir("c17")
 	defer vh.RemoveAll(base)
 	root := filepath.Join(base, "root")
-	L := vh.BuildLegacy(rng, root, fmt.Sprint(i/2))
-	c := &checker{r: r, idx: i, kind: kind, L: L, desc: fmt.Sprintf("layout %d store %s kinds %v", i/2, kind, L.Kinds)}
+	L := vh.BuildLegacy(rng, root, fmt.Sprint(i/3))
+	open := func() http.Handler {
+		cf := vh.Conf(kind, root, vh.Neutral)
+		if ro {
+			cf.Storage.ReadOnly = vh.BP(true)
+		}
+		return vh.New(cf)
+	}
+	c := &checker{r: r, idx: i, kind: kind, L: L, desc: fmt.Sprintf("layout %d store %s read-only %v kinds %v", i/3, kind, ro, L.Kinds)}
 	for _, k := range L.Kinds {
 		r.Distinct("layout_classes", k)
 	}
-	wit := map[string]any{"layout": i / 2, "store": kind.String(), "fallback_index_classes": L.Kinds, "subjects": len(L.Subjects)}
+	wit := map[string]any{"layout": i / 3, "store": kind.String(), "read_only": ro, "fallback_index_classes": L.Kinds, "subjects": len(L.Subjects)}
 	if b, err := os.ReadFile(filepath.Join(root, "leg", "index.json")); err == nil {
 		wit["index_json"] = string(b)
 	}
@@ -181,7 +190,7 @@ func one(r *vh.Run, i int) {
 			images = append(images, d)
 		})
 	}
-	srv := vh.New(vh.Conf(kind, root, vh.Neutral))
+	srv := open().(*olareg.Server)
 	var probs []string
 	res := vh.Watch(func() { probs = verifyServer(c, srv, "first open") }, 2*time.Second, 60*time.Second)
 	unreg()
@@ -218,7 +227,7 @@ func one(r *vh.Run, i int) {
 	}
 	// repeat
 	if !crashOnly {
-		srv2 := vh.New(vh.Conf(kind, root, vh.Neutral))
+		srv2 := open().(*olareg.Server)
 		res2 := vh.Watch(func() { probs = verifyServer(c, srv2, "second open") }, 2*time.Second, 60*time.Second)
 		if res2.Stalled {
 			wit["blocked_goroutines"] = res2.Desc
@@ -255,8 +264,8 @@ func one(r *vh.Run, i int) {
 			break
 		}
 	}
-	if i < 2 {
-		r.Sample(map[string]any{"layout": i / 2, "store": kind.String(), "fallback_index_classes": L.Kinds, "expected_referrers_per_subject": func() []int {
+	if i < 3 {
+		r.Sample(map[string]any{"layout": i / 3, "store": kind.String(), "fallback_index_classes": L.Kinds, "expected_referrers_per_subject": func() []int {
 			var o []int
 			for _, s := range L.Subjects {
 				o = append(o, len(L.Expected[s]))
